@@ -105,7 +105,7 @@ class Builder:
         return h
 
     # ---- leaves
-    def leaf(self, kind, shape, dtype="float64", order="C", constant=None, lo=-48, hi=48):
+    def leaf(self, kind, shape, dtype="float64", order="C", constant=None, lo=-48, hi=48, layout=None):
         n = int(np.prod(shape)) if len(shape) else 1
         if kind in ("intarray", "intscalar", "inttensor"):
             vals = self.draw(st.lists(st.integers(1, 4), min_size=n, max_size=n))
@@ -119,6 +119,8 @@ class Builder:
             s["order"] = order
         if constant is not None:
             s["constant"] = constant
+        if layout is not None:
+            s["layout"] = layout
         self._emit(s)
         return h
 
@@ -442,9 +444,9 @@ def bshape_ok(s1, s2, cap):
     return int(np.prod(s)) <= cap if len(s) else True
 
 
-def step_unary(b: Builder):
+def step_unary(b: Builder, name=None):
     d = b.draw
-    name = d(st.sampled_from(UNARY_SMOOTH + UNARY_SMOOTH + UNARY_KINKY))
+    name = name or d(st.sampled_from(UNARY_SMOOTH + UNARY_SMOOTH + UNARY_KINKY))
     a = b.pick(b.float_handles())
     if a is None:
         return None
@@ -478,9 +480,9 @@ def draw_const_flag(b, is_view=False):
     return None
 
 
-def step_binary(b: Builder):
+def step_binary(b: Builder, name=None):
     d = b.draw
-    name = d(st.sampled_from(BINARY))
+    name = name or d(st.sampled_from(BINARY))
     a = b.pick(b.float_handles())
     if a is None:
         return None
@@ -528,9 +530,9 @@ def step_binary(b: Builder):
     return b.op(name, args, None, constant=kw_const)
 
 
-def step_reduce(b: Builder):
+def step_reduce(b: Builder, name=None):
     d = b.draw
-    name = d(st.sampled_from(REDUCE + ["cumsum", "cumprod", "norm"]))
+    name = name or d(st.sampled_from(REDUCE + ["cumsum", "cumprod", "norm"]))
     a = b.pick(b.float_handles())
     if a is None:
         return None
@@ -560,9 +562,9 @@ def step_reduce(b: Builder):
     return b.op(name, [a], p, constant=draw_const_flag(b) if not p.get("method") else None)
 
 
-def step_view(b: Builder, names=None):
+def step_view(b: Builder, names=None, name=None):
     d = b.draw
-    name = d(st.sampled_from(names or VIEWS))
+    name = name or d(st.sampled_from(names or VIEWS))
     a = b.pick(b.float_handles(tensors_only=(name in ("T",)) or b.views_tensors_only))
     if a is None:
         return None
@@ -584,10 +586,10 @@ def step_view(b: Builder, names=None):
     return b.op(name, [a], p, constant=cf)
 
 
-def step_shape_nonview(b: Builder):
+def step_shape_nonview(b: Builder, name=None):
     d = b.draw
-    name = d(st.sampled_from(["flatten", "roll", "repeat", "getitem_adv", "softmax", "logsoftmax", "glu", "clip",
-                              "where"]))
+    name = name or d(st.sampled_from(["flatten", "roll", "repeat", "getitem_adv", "softmax", "logsoftmax", "glu", "clip",
+                                      "where"]))
     tensors_only = name in ("flatten", "getitem_adv")
     a = b.pick(b.float_handles(tensors_only=tensors_only))
     if a is None:
@@ -656,9 +658,9 @@ def step_shape_nonview(b: Builder):
     return None
 
 
-def step_nary(b: Builder):
+def step_nary(b: Builder, name=None):
     d = b.draw
-    name = d(st.sampled_from(NARY))
+    name = name or d(st.sampled_from(NARY + ["multi_matmul"]))
     fl = b.float_handles()
     a = b.pick(fl)
     if a is None:
@@ -697,6 +699,16 @@ def step_nary(b: Builder):
         return b.op(name, args, None, constant=draw_const_flag(b))
     if name == "einsum":
         return _einsum_step(b, a, fl)
+    if name == "multi_matmul":
+        if nd != 2:
+            return None
+        args = [a]
+        cur = shp[-1]
+        for _ in range(d(st.integers(1, 3))):
+            m = d(st.integers(1, 3))
+            args.append(b.leaf(d(st.sampled_from(["var", "var", "const", "array"])), [cur, m]))
+            cur = m
+        return b.op("multi_matmul", args, None, constant=draw_const_flag(b))
     # matmul
     if nd == 0:
         return None
